@@ -544,7 +544,10 @@ let run_bkt mo jo impl secs =
      | None -> ()
      | Some lines ->
        let sentinel = kmax kt in
-       judge_reject jo id lines "B" (ends_with_reserved kt data) "invalid_argument";
+       (* a fixed TopLevelBitSize too narrow for the number of segments is a documented precondition (invalid_argument) *)
+       let too_narrow = (not (ends_with_reserved kt data)) && iz bc.b_tlbs > 0 &&
+                        (match bucketing_build bc data with Err ThrowInvalidArgument -> true | _ -> false) in
+       judge_reject jo id lines "B" (ends_with_reserved kt data || too_narrow) "invalid_argument";
        let nn = zi (List.length data) in
        let first = (match data with x :: _ -> x | [] -> Z0) and last = List.fold_left (fun _ x -> x) Z0 data in
        let top = List.concat_map (function "P" :: t -> List.map int_of_string t | _ -> []) lines in
